@@ -76,6 +76,15 @@ theorem modified_silently_dropped_fails : ¬ SilentlyDropped true := by
 example : (receive A0 zeroHp (cfg0 false) (fun _ => .ok 5) s0 (flipBit 4 pkt0) 9).1 = .dropped .decryptFail := by
   decide
 
+/-! ### reported, not part of the property: `get_remote` updates the key state BEFORE authentication -/
+
+/-- a 1-RTT packet with key-phase bit 1 whose tag was corrupted (bit 152 = first tag byte) is dropped, yet the
+receiver's `OneRttPacketKeys` has toggled `cur_phase` and installed the next keys (RFC 9001 §6.3 asks to update
+only after a packet was successfully decrypted with the new keys). -/
+example : (receive A1 zeroHp (cfg0 false) (fun _ => .ok 9) s0 (flipBit 152 pkt1) 9).1 = .dropped .decryptFail
+    ∧ (receive A1 zeroHp (cfg0 false) (fun _ => .ok 9) s0 (flipBit 152 pkt1) 9).2.cur = true
+    ∧ s0.cur = false := by decide
+
 /-! ### link to C07: the receiver's journal decodes the wire pn to the sender's pn -/
 
 /-- `hdec` of `open_seal_packet` discharged from C07's `decode_encode`: the sender truncated `pn` against its
